@@ -209,6 +209,9 @@ pub fn types() -> Vec<T> {
         T::I(32, "i32"),
         T::I(64, "i64"),
         T::Array(Box::new(u8t.clone()), 3),
+        T::Array(Box::new(T::U(16, "u16")), 4),
+        T::Array(Box::new(T::I(8, "i8")), 3),
+        T::Array(Box::new(T::U(32, "usize")), 2),
         T::Array(Box::new(T::Bool), 1),
         T::Array(Box::new(T::Tuple(vec![T::I(8, "i8"), T::Bool])), 2),
         T::Tuple(vec![u8t.clone(), T::Bool, T::I(16, "i16")]),
@@ -351,6 +354,37 @@ fn hostile_cases(prgs: &[(T, garble_lang::GarbleProgram)]) -> Result<u64, String
                 Err(_) => return Err(format!("parse_arg panics on the text `{l}` for a parameter of type {}", ty_name(t))),
                 Ok(Ok(bits)) => return Err(format!("the text `{l}` is accepted for a parameter of type {} (encoded as {} bits) although it denotes no value of that type", ty_name(t), bits.len())),
                 Ok(Err(_)) => {}
+            }
+        }
+    }
+    // range literals `a..b` as text for array parameters: an accepted range encodes to exactly the parameter's size and to the bits of
+    // the array [a, a+1, .., b-1] of the parameter's element type (also when the range is written without a suffix); a range whose
+    // length or values do not fit is refused
+    let ranges: [(T, &[(&str, Option<u64>)]); 4] = [
+        (T::Array(Box::new(T::U(8, "u8")), 3), &[("1..4", Some(1)), ("1u8..4u8", Some(1)), ("253..256", Some(253)), ("0..3", Some(0)), ("254..257", None), ("1..3", None), ("1..5", None), ("300..303", None), ("1u16..4u16", None)]),
+        (T::Array(Box::new(T::U(16, "u16")), 4), &[("10..14", Some(10)), ("65532..65536", Some(65532)), ("65533..65537", None), ("10u16..14u16", Some(10)), ("10u8..14u8", None)]),
+        (T::Array(Box::new(T::I(8, "i8")), 3), &[("1..4", Some(1)), ("125..128", Some(125)), ("126..129", None)]),
+        (T::Array(Box::new(T::U(32, "usize")), 2), &[("7..9", Some(7)), ("7usize..9usize", Some(7)), ("4294967295..4294967297", None)]),
+    ];
+    for (t, cases) in ranges.iter() {
+        let p = find(t);
+        let (et, k) = if let T::Array(e, k) = t { (e.as_ref().clone(), *k) } else { unreachable!() };
+        for (text, first) in cases.iter() {
+            n += 1;
+            let got = catch_unwind(AssertUnwindSafe(|| p.parse_arg(0, text).map(|a| a.as_bits())));
+            match (got, first) {
+                (Err(_), _) => return Err(format!("parse_arg panics on the range `{text}` for a parameter of type {}", ty_name(t))),
+                (Ok(Ok(bits)), None) => return Err(format!("the range `{text}` is accepted for a parameter of type {} (encoded as {} bits) although it denotes no value of that type", ty_name(t), bits.len())),
+                (Ok(Err(e)), Some(_)) => return Err(format!("the range `{text}` is refused for a parameter of type {}: {e:?}", ty_name(t))),
+                (Ok(Err(_)), None) => {}
+                (Ok(Ok(bits)), Some(a)) => {
+                    let v = V::Seq((0..k as u64).map(|i| if let T::I(..) = et { V::I((a + i) as i64) } else { V::U(a + i) }).collect());
+                    let mut want = vec![];
+                    encode(t, &v, &mut want);
+                    if bits != want {
+                        return Err(format!("the range `{text}` for a parameter of type {} encodes to {} bits {:?}, the array it denotes to {} bits {:?}", ty_name(t), bits.len(), &bits[..bits.len().min(40)], want.len(), &want[..want.len().min(40)]));
+                    }
+                }
             }
         }
     }
